@@ -233,15 +233,21 @@ pub fn load(text: &str, sigs: &[Sig], budget: u64) -> Result<dtr::TestCase, ObsI
     }
 }
 
+/// The error's message chain; formatting is the subject's code and may itself panic
 pub fn miette_chain(e: &dyn std::error::Error) -> String {
-    let mut s = format!("{e}");
-    let mut cur = e.source();
-    while let Some(c) = cur {
-        s.push_str(": ");
-        s.push_str(&format!("{c}"));
-        cur = c.source();
+    match std::panic::catch_unwind(std::panic::AssertUnwindSafe(|| {
+        let mut s = format!("{e}");
+        let mut cur = e.source();
+        while let Some(c) = cur {
+            s.push_str(": ");
+            s.push_str(&format!("{c}"));
+            cur = c.source();
+        }
+        s
+    })) {
+        Ok(s) => s,
+        Err(_) => "PANIC while the error message was being formatted".to_string(),
     }
-    s
 }
 
 fn item_of(r: Option<Result<dtr::DataRow<'_>, dtr::errors::IterationError<Fault>>>) -> ObsItem {
